@@ -67,9 +67,10 @@ def rvec(rng, dim, lo=-2, hi=2, den=4):
 def joint_py(spec, asg):
     """joint log-density at a complete assignment (list of vectors): plain Fractions, no cuqi"""
     tot = Fraction(0)
+    sg = [Fraction(x) for x in spec.get("sig", [1] * len(spec["names"]))]       # block i lives on the scale sig[i] (a power of two)
     for f in spec["factors"]:
-        T = Fraction(f["b"]) + sum(Fraction(a) * Sf(asg[j]) for j, a in f["par"])
-        s = Sf(asg[f["x"][1]]) if f["x"][0] == "blk" else Sf(f["x"][1])
+        T = Fraction(f["b"]) + sum(Fraction(a) * Sf(asg[j]) / sg[j] for j, a in f["par"])
+        s = Sf(asg[f["x"][1]]) / sg[f["x"][1]] if f["x"][0] == "blk" else Sf(f["x"][1])
         tot += Fraction(f["c"]) + Fraction(f["m"]) * T + Fraction(f["q"]) * T * s + Fraction(f["r"]) * s * s + Fraction(f["l"]) * s
     return tot
 
@@ -100,17 +101,18 @@ def classes():
     class QD(Distribution):
         """logpdf(x) = c + m T + q T S(x) + r S(x)^2 + l S(x),  T = loc (number, or callable of other variables)"""
 
-        def __init__(self, loc, co, dim, name, zsrc=None):
+        def __init__(self, loc, co, dim, name, zsrc=None, sig=1.0):
             super().__init__(name=name, geometry=dim)
             self.loc = loc
             self._co = co
             self._zsrc = zsrc
+            self._sig = sig                       # the variable enters through S(x) / sig (sig a power of two: exact)
 
         def logpdf(self, x):
             c, m, q, r, l = self._co
             T = self.loc
             T = float(T) if np.ndim(T) == 0 else S(T)
-            sx = S(x)
+            sx = S(x) / self._sig
             return c + m * T + q * T * sx + r * sx * sx + l * sx
 
         def _sample(self, N=1, rng=None):
@@ -231,14 +233,15 @@ def build_joint(spec, zsrcs=None):
     from cuqi.distribution import JointDistribution
     QD = classes()["QD"]
     names = spec["names"]
+    sig = spec.get("sig", [1.0] * len(names))
 
     def loc_of(f):
         if not f["par"]:
             return float(f["b"])
         argn = [names[j] for j, _ in f["par"]]
-        src = "def _f(%s, _a=_a, _b=_b, _S=_S):\n    return _b + %s\n" % (
-            ", ".join(argn), " + ".join("_a[%d]*_S(%s)" % (k, n) for k, n in enumerate(argn)))
-        env = {"_a": tuple(float(a) for _, a in f["par"]), "_b": float(f["b"]), "_S": S}
+        src = "def _f(%s, _a=_a, _b=_b, _S=_S, _g=_g):\n    return _b + %s\n" % (
+            ", ".join(argn), " + ".join("_a[%d]*(_S(%s)/_g[%d])" % (k, n, k) for k, n in enumerate(argn)))
+        env = {"_a": tuple(float(a) for _, a in f["par"]), "_b": float(f["b"]), "_S": S, "_g": tuple(float(sig[j]) for j, _ in f["par"])}
         exec(src, env)
         return env["_f"]
 
@@ -248,7 +251,7 @@ def build_joint(spec, zsrcs=None):
         co = tuple(float(f[k]) for k in ("c", "m", "q", "r", "l"))
         if f["x"][0] == "blk":
             i = f["x"][1]
-            dens.append(QD(loc_of(f), co, spec["dims"][i], names[i], zsrc=(zsrcs or {}).get(i)))
+            dens.append(QD(loc_of(f), co, spec["dims"][i], names[i], zsrc=(zsrcs or {}).get(i), sig=float(sig[i])))
         else:
             nm = "y%d" % nd
             nd += 1
@@ -329,6 +332,8 @@ def run_hybrid(meta):
         else:
             smp = C[kind](tr, i, scripts[i], scale=meta["scales"][i], initial_point=ip)
         strategy[nm] = smp
+    if len(meta["script"]) % 2:                      # declaration order of the strategy dict is not par_names order
+        strategy = {nm: strategy[nm] for nm in sorted(strategy)}
     nss = meta["num_steps"]
     nsd = None if nss is None else {spec["names"][i]: n for i, n in enumerate(nss) if n is not None}
     obs = {"error": None}
@@ -423,7 +428,15 @@ def oracle_hybrid(meta, obs):
                 if e["cur"] != want:
                     return ("sweep %d block %s: current_samples at the update %s are not (already updated blocks new, the rest old) %s"
                             % (t, spec["names"][i], e["cur"], want)), "HybridGibbs.step|current-values"
-                for p, v in zip(meta["probes"][i], e["probes"]):
+                if meta.get("real"):
+                    bad = real_probe_check(meta, i, want, e)
+                    if not bad:
+                        bad2 = real_draw_check(meta, i, want, e)
+                        if bad2:
+                            return ("sweep %d block %s: %s" % (t, spec["names"][i], bad2)), "HybridGibbs.step|draw-not-from-current-conditional"
+                    if bad:
+                        return ("sweep %d block %s (%s): %s; current other values %s" % (t, spec["names"][i], meta["assign"][i], bad, [c for b, c in enumerate(want) if b != i])), "HybridGibbs._set_target|conditional-not-current"
+                for p, v in zip(meta["probes"][i], e["probes"] if not meta.get("real") else []):
                     asg = [list(x) for x in want]
                     asg[i] = p
                     ex = joint_py(spec, asg)
@@ -449,6 +462,10 @@ def oracle_hybrid(meta, obs):
     for i, s in enumerate(obs["samplers"]):
         if s["pt"] != prev[i]:
             return "sampler %s ends at %s, last stored value %s" % (spec["names"][i], s["pt"], prev[i]), "HybridGibbs._store_samples|not-post-sweep"
+        if meta.get("real"):
+            if meta["assign"][i] != "NUTS" and len(s["acc"]) != 1 + nsw * nst[i]:
+                return "sampler %s: %d acceptance entries for %d transitions" % (spec["names"][i], len(s["acc"]) - 1, nsw * nst[i]), "HybridGibbs.step|sampler-history-lost"
+            continue
         if s["tunes"] != exp_tunes[i]:
             return ("sampler %s tuned at (interval, count, transitions so far + 1) %s, the schedule is %s" % (spec["names"][i], s["tunes"], exp_tunes[i])), "HybridGibbs.warmup|tune-schedule"
         if s["scale"] != meta["scales"][i] / 2 ** len(exp_tunes[i]):
@@ -493,10 +510,22 @@ def oracle_cache(meta, obs):
 # ------------------------------------------------------------------------------------------
 # Coq encoders
 # ------------------------------------------------------------------------------------------
-def cfactor(f):
-    x = "(inl %s)" % cnat(f["x"][1]) if f["x"][0] == "blk" else "(inr %s)" % cq(Sf(f["x"][1]))
-    par = clist(["(%s, %s)" % (cnat(j), cq(a)) for j, a in f["par"]])
-    return "(mkF %s %s %s %s %s %s %s %s)" % (x, par, cq(f["b"]), cq(f["c"]), cq(f["m"]), cq(f["q"]), cq(f["r"]), cq(f["l"]))
+def cfactor(f, sig=None):
+    """the factor with the block scales folded into exact rational coefficients (the Coq joint sees raw block values)"""
+    sg = lambda j: Fraction(sig[j]) if sig else Fraction(1)
+    if f["x"][0] == "blk":
+        i = f["x"][1]
+        x = "(inl %s)" % cnat(i)
+        q, r, l = Fraction(f["q"]) / sg(i), Fraction(f["r"]) / sg(i) ** 2, Fraction(f["l"]) / sg(i)
+    else:
+        x = "(inr %s)" % cq(Sf(f["x"][1]))
+        q, r, l = Fraction(f["q"]), Fraction(f["r"]), Fraction(f["l"])
+    par = clist(["(%s, %s)" % (cnat(j), cq(Fraction(a) / sg(j))) for j, a in f["par"]])
+    return "(mkF %s %s %s %s %s %s %s %s)" % (x, par, cq(f["b"]), cq(f["c"]), cq(f["m"]), cq(q), cq(r), cq(l))
+
+
+def cjoint(spec):
+    return "(qjoint %s)" % clist([cfactor(f, spec.get("sig")) for f in spec["factors"]])
 
 
 def cvecs(vs):
@@ -531,7 +560,7 @@ def hybrid_args(meta, fresh):
     k = len(spec["names"])
     inits = clist(["(init_point %s %s)" % (copt(meta["inits"][i], cqvec), cnat(spec["dims"][i])) for i in range(k)])
     ns = clist([]) if meta["num_steps"] is None else clist([copt(n, cnat) for n in meta["num_steps"]])
-    return "%s %s %s %s %s %s %s %s" % (cbool(fresh), clist([cfactor(f) for f in spec["factors"]]), clist(meta["kinds"]), inits,
+    return "%s %s %s %s %s %s %s %s" % (cbool(fresh), cjoint(spec), clist(meta["kinds"]), inits,
                                         cqvec(meta["scales"]), ns, cscript(meta["script"]), cops(meta["ops"]))
 
 
@@ -655,6 +684,148 @@ def gen_hybrid(rng, cell, rep=1):
             "script": gen_script(rng, spec, kinds, nst, nsw, scales)}
 
 
+# ---- SCALE dimension: blocks living on scales 2^-40 .. 2^40 (absolute tolerances must not decide what "moved" means),
+# ---- and blocks moving by a tiny RELATIVE amount between sweeps (relative tolerances must not either)
+def pick_sig(rng, k, mode, kinds):
+    tiny, huge = [2.0 ** -40, 2.0 ** -30, 2.0 ** -20], [2.0 ** 20, 2.0 ** 40]
+    if mode == "tiny":
+        sig = [rng.choice(tiny) for _ in range(k)]
+    elif mode == "huge":
+        sig = [rng.choice(huge) for _ in range(k)]
+    else:
+        sig = [rng.choice(tiny + huge + [1.0]) for _ in range(k)]
+        sig[rng.randrange(k)] = rng.choice(tiny[:2])
+    return [1.0 if kinds[i] in ("KDirect",) else sig[i] for i in range(k)]
+
+
+def scale_meta(meta, sig):
+    """put block i on the scale sig[i]: initial points, probes and scripted vectors are multiplied (exactly) by sig[i]"""
+    meta["spec"]["sig"] = list(sig)
+    k = len(sig)
+    mul = lambda v, g: [float(a) * g for a in v]
+    meta["inits"] = [None if meta["inits"][i] is None else mul(meta["inits"][i], sig[i]) for i in range(k)]
+    meta["probes"] = [[mul(p, sig[i]) for p in meta["probes"][i]] for i in range(k)]
+    for sw in meta["script"]:
+        for i in range(k):
+            for it in sw[i]:
+                it["vec"] = mul(it["vec"], sig[i])
+    return meta
+
+
+def fine_meta(rng, meta, dexp, sigma0):
+    """block 0 (one-dimensional, recording sampler) moves between sweeps by k * 2^-dexp RELATIVE to its value m * sigma0
+    (k in -3..3, including exact repeats); everything stays exactly representable: r = 0 in block 0's own factor"""
+    spec = meta["spec"]
+    spec["factors"][0]["r"] = 0
+    m = rng.choice([1, 2, 3, -2])
+    d = 2.0 ** -dexp
+    val = lambda: [(m + rng.randint(-3, 3) * d)]
+    meta["inits"][0] = val()
+    for sw in meta["script"]:
+        for it in sw[0]:
+            it["vec"] = val()
+    sig = [1.0] * len(spec["names"])
+    sig[0] = sigma0
+    return scale_meta(meta, sig)
+
+
+HY_SCALE_CELLS = [
+    ("hybrid/scale-mixed/rec/3blk/lik", 3, 1, ["KRec"] * 3, [1, 2, 1], [("sample", 3)], "mixed"),
+    ("hybrid/scale-mixed/mh+rec/3blk/lik", 3, 1, ["KMH", "KRec", "KMH"], [2, 1, 1], [("sample", 3)], "mixed"),
+    ("hybrid/scale-tiny/rec/2blk/lik/warmup", 2, 1, ["KRec"] * 2, None, [("warmup", 2, 0.5), ("sample", 2)], "tiny"),
+    ("hybrid/scale-tiny/mh/2blk", 2, 0, ["KMH", "KMH"], None, [("sample", 4)], "tiny"),
+    ("hybrid/scale-huge/rec+mh/3blk/lik", 3, 1, ["KRec", "KMH", "KRec"], [1, 1, 2], [("sample", 2), ("sample", 1)], "huge"),
+    ("hybrid/scale-mixed/direct+nuts-branch/3blk", 3, 1, ["KNuts", "KDirect", "KRec"], [1, 1, 1], [("sample", 3)], "mixed"),
+]
+def gen_hybrid_partial(rng, rep):
+    """block 0 is two-dimensional and only its LAST component moves (first component and the sum of squares-free parts equal)"""
+    cell = ("hybrid/partial-move/last-component-only", 3, 1, ["KRec", "KMH", "KRec"], [1, 2, 1], [("sample", 4)])
+    name, k, ndata, kinds, steps, ops = cell
+    spec = gen_spec(rng, k, ndata, dims=[2, 1, rng.choice([1, 2])])
+    nst = [1, 2, 1]
+    m = {"iface": "hybrid", "cell": name, "spec": spec, "kinds": kinds, "num_steps": steps, "ops": [list(o) for o in ops],
+         "scales": [1.0, 0.5, 1.0], "inits": [rvec(rng, d, -2, 2, 2) for d in spec["dims"]], "init_scalar": [False] * 3,
+         "probes": gen_probes(rng, spec), "script": gen_script(rng, spec, kinds, nst, 4, [1.0, 0.5, 1.0])}
+    first = m["inits"][0][0]
+    for sw in m["script"]:
+        for it in sw[0]:
+            it["vec"][0] = first
+    return m
+
+
+HY_FINE_CELLS = [
+    # (cell, k, ndata, kinds, steps, ops, relative move 2^-e, scale of block 0)
+    ("hybrid/fine-move/rel2^-20/sigma1", 3, 1, ["KRec"] * 3, None, [("sample", 4)], 20, 1.0),
+    ("hybrid/fine-move/rel2^-30/sigma2^40", 3, 1, ["KRec"] * 3, [1, 2, 1], [("sample", 4)], 30, 2.0 ** 40),
+    ("hybrid/fine-move/rel2^-36/sigma2^-40", 2, 1, ["KRec"] * 2, None, [("warmup", 2, 0.5), ("sample", 3)], 36, 2.0 ** -40),
+    ("hybrid/fine-move/rel2^-30/mh-neighbour", 3, 0, ["KRec", "KMH", "KRec"], None, [("sample", 4)], 30, 1.0),
+]
+LG_SCALE_CELLS = [
+    ("legacy/scale-mixed/rec/3blk/lik/continue", 3, 1, ["LRec"] * 3, [(2, 1), (2, 0)], "mixed"),
+    ("legacy/scale-tiny/mh+rec/2blk/lik", 2, 1, ["LMH", "LRec"], [(3, 0)], "tiny"),
+]
+LG_FINE_CELLS = [
+    ("legacy/fine-move/rel2^-30/sigma1", 3, 1, ["LRec"] * 3, [(3, 0), (1, 0)], 30, 1.0),
+    ("legacy/fine-move/rel2^-20/sigma2^-40", 2, 1, ["LRec"] * 2, [(2, 2)], 20, 2.0 ** -40),
+]
+
+
+def _coarse(meta):
+    """fine-move cells: every block one-dimensional, half-integer values of modulus <= 2 (keeps products within 53 bits)"""
+    return meta
+
+
+def gen_hybrid_scale(rng, cell, rep):
+    name, k, ndata, kinds, steps, ops, mode = cell
+    m = gen_hybrid(rng, (name, k, ndata, kinds, steps, ops), rep=1)
+    k_ = len(kinds)
+    for i in range(k_):
+        if m["inits"][i] is None:                      # the default ones(dim) would be 2^40 in units of a tiny block
+            m["inits"][i] = rvec(rng, m["spec"]["dims"][i], -2, 2, 2)
+    m["init_scalar"] = [False] * k_
+    return scale_meta(m, pick_sig(rng, k_, mode, kinds))
+
+
+def gen_hybrid_fine(rng, cell, rep):
+    name, k, ndata, kinds, steps, ops, dexp, s0 = cell
+    leaf = None
+    spec = gen_spec(rng, k, ndata, leaf=leaf, dims=[1] * k)
+    nst = [1 if (steps is None or steps[i] is None) else steps[i] for i in range(k)]
+    nsw = sum(op[1] for op in ops)
+    scales = [rng.choice([0.5, 1.0]) for _ in range(k)]
+    half = lambda: [dy(rng, -2, 2, 2)]
+    sc = []
+    for t in range(nsw):
+        sw = []
+        for i in range(k):
+            sw.append([{"vec": half(), "u": (rng.choice([0.125, 0.5, 0.9375]) if kinds[i] == "KMH" else None), "acc": 1} for _ in range(nst[i])])
+        sc.append(sw)
+    m = {"iface": "hybrid", "cell": name, "spec": spec, "kinds": list(kinds), "num_steps": None if steps is None else list(steps),
+         "ops": [list(o) for o in ops], "scales": scales, "inits": [half() for _ in range(k)], "init_scalar": [False] * k,
+         "probes": [[[0.0], [1.0], half()] for _ in range(k)], "script": sc}
+    return fine_meta(rng, m, dexp, s0)
+
+
+def gen_legacy_scale(rng, cell):
+    name, k, ndata, kinds, ops, mode = cell
+    m = gen_legacy(rng, (name, k, ndata, kinds, ops))
+    for i in range(k):
+        if m["inits"][i] is None:
+            m["inits"][i] = rvec(rng, m["spec"]["dims"][i], -2, 2, 2)
+    return scale_meta(m, pick_sig(rng, k, mode, kinds))
+
+
+def gen_legacy_fine(rng, cell):
+    name, k, ndata, kinds, ops, dexp, s0 = cell
+    spec = gen_spec(rng, k, ndata, dims=[1] * k)
+    nsw = legacy_sweeps(ops)
+    half = lambda: [dy(rng, -2, 2, 2)]
+    sc = [[[{"vec": half(), "u": None, "acc": 1}] for _ in range(k)] for _ in range(nsw)]
+    m = {"iface": "legacy", "cell": name, "spec": spec, "kinds": list(kinds), "ops": [list(o) for o in ops], "scales": [1.0] * k,
+         "tuple_key": None, "inits": [half() for _ in range(k)], "probes": [[[0.0], [1.0], half()] for _ in range(k)], "script": sc}
+    return fine_meta(rng, m, dexp, s0)
+
+
 # ------------------------------------------------------------------------------------------
 # legacy Gibbs driver
 # ------------------------------------------------------------------------------------------
@@ -760,18 +931,14 @@ def oracle_legacy(meta, obs):
     have_samples, have_warm = None, None       # what the object holds (lists of sweeps)
     t = 0
     for (ns, nb), call in zip(meta["ops"], obs["calls"]):
-        # continuation: resumes from the last stored sweep; refusals: second warm-up, and nothing stored to resume from
-        if have_samples is not None and len(have_samples) == 0:
-            if call.get("raised") != "IndexError":
-                return "a call after a run that stored no sample did not refuse (IndexError expected)", "Gibbs._get_initial_points"
-            continue
+        # continuation: resumes from the last stored sweep (last sample, else last warm-up sweep); refusal: second warm-up
         if have_warm is not None and nb != 0:
             if call.get("raised") != "ValueError":
                 return "a second warm-up was not refused", "Gibbs._allocate_samples_warmup"
             continue
         if "raised" in call:
             return "Gibbs.sample(%d, %d) raised %s" % (ns, nb, call["raised"]), "Gibbs|raised"
-        start = have_samples[-1] if have_samples else prev
+        start = have_samples[-1] if have_samples else (have_warm[-1] if have_warm else inits)
         prev = start
         new_sw = []
         for s in range(nb + ns):
@@ -828,7 +995,7 @@ def encode_legacy(meta, obs):
             oobs.append("LObs%s" % c["raised"])
         else:
             oobs.append("(LObs %s %s)" % (clist([cvecs(s) for s in c["samples"]]), clist([cvecs(s) for s in c["warm"]])))
-    return "check_legacy %s %s %s %s %s %s %s %s" % (clist([cfactor(f) for f in spec["factors"]]), ks, init0, cscript(meta["script"]),
+    return "check_legacy %s %s %s %s %s %s %s %s" % (cjoint(spec), ks, init0, cscript(meta["script"]),
                                                      clist(["(LSample %s %s)" % (cnat(a), cnat(b)) for a, b in meta["ops"]]),
                                                      clist([cvecs(p) for p in meta["probes"]]), clist(oobs),
                                                      clist([coev(e) for e in obs["events"]]))
@@ -851,8 +1018,6 @@ def legacy_sweeps(ops):
     """number of sweeps actually performed by a call sequence (refused calls perform none)"""
     n, have_s, have_w = 0, None, None
     for ns, nb in ops:
-        if have_s is not None and have_s == 0:
-            continue
         if have_w is not None and nb != 0:
             continue
         n += ns + nb
@@ -969,12 +1134,372 @@ def cache_probe_real(which):
     return None
 
 
+
+# ------------------------------------------------------------------------------------------
+# real CUQIpy families and the real block samplers (kernels opaque: the model is handed what they returned)
+# ------------------------------------------------------------------------------------------
+TOL_REAL = Fraction(1, 10 ** 8)
+
+
+def real_model(meta):
+    """(cuqi joint/posterior, names in par_names order).  Two models:
+    hier : d ~ Gamma(1, bd), l ~ Gamma(1, bl), x ~ Gaussian(0, (1/d) I_n), y ~ Gaussian(A x, (1/l) I_m), y observed
+    pair : s ~ Gaussian(mu, v_s I_2), x ~ Gaussian(s, v_x I_2)
+    x (and in `pair` also s) lives on the scale sigma = meta['sigma'] (a power of two)"""
+    import cuqi
+    from cuqi.distribution import Gaussian, Gamma, JointDistribution
+    g = float(meta["sigma"])
+    if meta["model"] == "hier":
+        A = cuqi.model.LinearModel(np.asarray(meta["A"], dtype=float) / g)
+        d = Gamma(1, meta["bd"] * g * g, name="d")
+        l = Gamma(1, meta["bl"], name="l")
+        x = Gaussian(np.zeros(len(meta["A"][0])), cov=lambda d: 1 / d, name="x")
+        y = Gaussian(A(x), cov=lambda l: 1 / l, name="y")
+        dens = {"d": d, "l": l, "x": x}
+        J = JointDistribution(*[dens[n] for n in meta["spec"]["names"]], y)
+        return J(y=np.asarray(meta["y"], dtype=float))
+    s = Gaussian(np.asarray(meta["mu"], dtype=float) * g, meta["vs"] * g * g, name="s")
+    x = Gaussian(lambda s: s, meta["vx"] * g * g, geometry=2, name="x")
+    dens = {"s": s, "x": x}
+    return JointDistribution(*[dens[n] for n in meta["spec"]["names"]])
+
+
+def real_sampler(meta, i, tr):
+    from cuqi.experimental.mcmc import MH, MALA, ULA, CWMH, PCN, NUTS, LinearRTO, Conjugate, Direct
+    base = {"MH": MH, "MALA": MALA, "ULA": ULA, "CWMH": CWMH, "PCN": PCN, "NUTS": NUTS, "LinearRTO": LinearRTO,
+            "Conjugate": Conjugate, "Direct": Direct}[meta["assign"][i]]
+
+    class W(base):
+        KIND = "KRec"
+
+        def step(self):
+            self._tr.on_step(self)
+            ev = self._tr.events[-1]
+            chk = []
+            for key, fn in (("current_target_logd", lambda: self.target.logd(self.current_point)),
+                            ("current_target_grad", lambda: self.target.gradient(self.current_point)),
+                            ("current_likelihood_logd", lambda: self._loglikelihood(self.current_point))):
+                if hasattr(self, key) and getattr(self, key) is not None:
+                    c, f = np.asarray(getattr(self, key), dtype=float).ravel(), np.asarray(fn(), dtype=float).ravel()
+                    chk.append([key, bool(c.shape == f.shape and np.allclose(c, f, rtol=1e-12, atol=0)), c.tolist(), f.tolist()])
+            ev["cachechk"] = chk
+            # what the draw itself is made from (not only which target the sampler holds): the Gamma parameters a Conjugate
+            # block hands to numpy, and -- with the normal draw replaced by 0 -- the point LinearRTO returns (= conditional mean)
+            orig_g, orig_n = np.random.gamma, np.random.randn
+            cap = {}
+
+            def gam(*a, **k):
+                cap["shape"], cap["scale"] = float(np.ravel(k.get("shape", a[0] if a else np.nan))[0]), float(np.ravel(k.get("scale", a[1] if len(a) > 1 else 1.0))[0])
+                return orig_g(*a, **k)
+            if meta["assign"][self._blk] == "Conjugate":
+                np.random.gamma = gam
+            if meta["assign"][self._blk] == "LinearRTO" and meta.get("zero_noise"):
+                np.random.randn = lambda *a: np.zeros(a)
+            try:
+                acc = super().step()
+            finally:
+                np.random.gamma, np.random.randn = orig_g, orig_n
+            if cap:
+                ev["gamma"] = [cap["shape"], cap["scale"]]
+            if meta["assign"][self._blk] == "LinearRTO" and meta.get("zero_noise"):
+                ev["zmean"] = [float(a) for a in np.asarray(self.current_point).ravel()]
+            self._tr.results[self._blk].append([float(a) for a in np.asarray(self.current_point).ravel()])
+            return acc
+    W.__name__ = base.__name__
+    g = float(meta["sigma"])
+    sc = meta["sscale"][i]
+    ip = np.asarray(meta["inits"][i], dtype=float)
+    kw = {"initial_point": ip}
+    if meta["assign"][i] in ("MH", "CWMH", "PCN", "MALA", "ULA"):
+        kw["scale"] = sc
+    if meta["assign"][i] == "NUTS":
+        kw["max_depth"] = 3
+    smp = W(**kw)
+    smp._tr, smp._blk = tr, i
+    return smp
+
+
+def run_real(meta):
+    from cuqi.experimental.mcmc import HybridGibbs
+    spec = meta["spec"]
+    k = len(spec["names"])
+    tr = Trace(spec, meta["probes"])
+    tr.results = [[] for _ in range(k)]
+    obs = {"error": None}
+    np.random.seed(meta["npseed"])
+    try:
+        with contextlib.redirect_stdout(io.StringIO()):
+            target = real_model(meta)
+            strategy = {nm: real_sampler(meta, i, tr) for i, nm in enumerate(spec["names"])}
+            strategy = {nm: strategy[nm] for nm in sorted(strategy, reverse=bool(meta["npseed"] % 2))}      # dict order is not par_names order
+            nss = meta["num_steps"]
+            nsd = None if nss is None else {spec["names"][i]: n for i, n in enumerate(nss) if n is not None}
+            G = HybridGibbs(target, strategy, nsd)
+            tr.G = G
+            obs["par_names"] = list(G.par_names)
+            obs["init_cur"] = tr.snapshot()
+            for op in meta["ops"]:
+                if op[0] == "sample":
+                    G.sample(op[1])
+                else:
+                    G.warmup(op[1], tune_freq=op[2])
+        obs["events"] = tr.events
+        obs["results"] = tr.results
+        obs["cur"] = tr.snapshot()
+        nsw = len(G.samples[spec["names"][0]])
+        obs["stored"] = [[[float(a) for a in np.asarray(G.samples[n][t]).ravel()] for n in spec["names"]] for t in range(nsw)]
+        obs["stored_lens"] = [len(G.samples[n]) for n in spec["names"]]
+        obs["stored_shapes"] = [[list(np.shape(G.samples[n][t])) for n in spec["names"]] for t in range(nsw)]
+        obs["samplers"] = [{"pt": [float(a) for a in np.asarray(G.samplers[nm].current_point).ravel()], "cache": None, "scale": 1.0,
+                            "acc": [0] * len(G.samplers[nm]._acc), "tunes": [], "init": [], "leftover": 0} for nm in spec["names"]]
+        try:
+            gs = G.get_samples()
+            ok = all(np.array_equal(np.asarray(gs[n].samples).reshape(spec["dims"][i], nsw),
+                                    np.array([r[i] for r in obs["stored"]]).T.reshape(spec["dims"][i], nsw)) for i, n in enumerate(spec["names"]))
+            obs["get_samples"] = "ok" if ok else "returns other values than the stored sweeps"
+        except Exception as e:      # noqa
+            obs["get_samples"] = "raised %s: %s" % (type(e).__name__, str(e)[:120])
+    except Exception as e:          # noqa
+        obs["error"] = "%s: %s" % (type(e).__name__, str(e)[:300])
+        obs["events"] = tr.events
+    return obs
+
+
+def real_script(meta, obs):
+    """the kernels' outputs, arranged as the script the model's opaque samplers replay"""
+    k = len(meta["spec"]["names"])
+    nst = [1 if (meta["num_steps"] is None or meta["num_steps"][i] is None) else meta["num_steps"][i] for i in range(k)]
+    nsw = sum(op[1] for op in meta["ops"])
+    res = obs.get("results") or [[] for _ in range(k)]
+    get = lambda i, n: res[i][n] if n < len(res[i]) else [0.0] * meta["spec"]["dims"][i]      # fewer transitions than configured: the oracle reports it
+    return [[[{"vec": get(i, t * nst[i] + j), "u": None, "acc": 1} for j in range(nst[i])] for i in range(k)] for t in range(nsw)]
+
+
+def _F(v):
+    return [Fraction(*float(a).as_integer_ratio()) for a in v]
+
+
+def real_closed_form(meta, i, others):
+    """independent closed form of the conditional of block i given the others (dict name -> vector of Fractions):
+    returns f(p) = the part of log p(block i = p | others) that depends on p, split into (polynomial part, coefficient of log p_0)"""
+    nm = meta["spec"]["names"][i]
+    g = Fraction(meta["sigma"])
+    if meta["model"] == "hier":
+        A = [[Fraction(a) / g for a in row] for row in meta["A"]]
+        y = [Fraction(v) for v in meta["y"]]
+        n, m = len(A[0]), len(A)
+        res = lambda xv: sum((y[r] - sum(A[r][c] * xv[c] for c in range(n))) ** 2 for r in range(m))
+        if nm == "x":
+            d, l = others["d"][0], others["l"][0]
+            return (lambda p: -d / 2 * sum(a * a for a in p) - l / 2 * res(p)), 0
+        if nm == "d":
+            xv = others["x"]
+            B = Fraction(meta["bd"]) * g * g + sum(a * a for a in xv) / 2
+            return (lambda p: -B * p[0]), Fraction(n, 2)            # Gamma(1, .): (alpha - 1) = 0
+        xv = others["x"]
+        B = Fraction(meta["bl"]) + res(xv) / 2
+        return (lambda p: -B * p[0]), Fraction(m, 2)
+    mu = [Fraction(v) * g for v in meta["mu"]]
+    wx, ws = 1 / (Fraction(meta["vx"]) * g * g), 1 / (Fraction(meta["vs"]) * g * g)
+    if nm == "x":
+        sv = others["s"]
+        return (lambda p: -wx / 2 * sum((p[c] - sv[c]) ** 2 for c in range(2))), 0
+    xv = others["x"]
+    return (lambda p: -wx / 2 * sum((xv[c] - p[c]) ** 2 for c in range(2)) - ws / 2 * sum((p[c] - mu[c]) ** 2 for c in range(2))), 0
+
+
+def real_probe_check(meta, i, want, e):
+    """target handed to block i vs the closed-form conditional given the TRUE current others, through probe combinations"""
+    names = meta["spec"]["names"]
+    others = {names[b]: _F(want[b]) for b in range(len(names)) if b != i}
+    f, logc = real_closed_form(meta, i, others)
+    probes = [_F(p) for p in meta["probes"][i]]
+    o = [Fraction(*float(v).as_integer_ratio()) for v in e["probes"]]
+    t = [f(p) for p in probes]
+    for c in meta["combos"][i]:
+        lhs = sum(ck * ov for ck, ov in zip(c, o))
+        rhs = sum(ck * tv for ck, tv in zip(c, t))
+        size = 1 + sum(abs(ck * ov) for ck, ov in zip(c, o)) + sum(abs(ck * tv) for ck, tv in zip(c, t))
+        if abs(lhs - rhs) > TOL_REAL * size:
+            return ("combination %s of the target's logd at the probes %s is %.12g, the closed-form conditional gives %.12g"
+                    % (c, meta["probes"][i], float(lhs), float(rhs)))
+    if logc:
+        # hyper-parameter block, probes p, 2p, 4p: 2[D(2p) - D(p)] - [D(4p) - D(2p)] = (coefficient of log) * log 2
+        lhs = float(2 * (o[1] - o[0]) - (o[2] - o[1]))
+        rhs = float(logc) * math.log(2.0)
+        if abs(lhs - rhs) > 1e-7 * (1 + sum(abs(float(v)) for v in o)):
+            return "the target's logd has log-coefficient %.9g, the conditional's is %.9g" % (lhs / math.log(2.0), float(logc))
+    return None
+
+
+def _solve(M, b):
+    """Gauss-Jordan over Fractions"""
+    n = len(b)
+    M = [row[:] + [b[i]] for i, row in enumerate(M)]
+    for c in range(n):
+        piv = next(r for r in range(c, n) if M[r][c] != 0)
+        M[c], M[piv] = M[piv], M[c]
+        M[c] = [v / M[c][c] for v in M[c]]
+        for r in range(n):
+            if r != c and M[r][c] != 0:
+                M[r] = [vr - M[r][c] * vc for vr, vc in zip(M[r], M[c])]
+    return [M[i][n] for i in range(n)]
+
+
+def real_draw_check(meta, i, want, e):
+    """the draw of an exact block sampler is made from the conditional given the TRUE current others"""
+    if meta["model"] != "hier":
+        return None
+    names = meta["spec"]["names"]
+    others = {names[b]: _F(want[b]) for b in range(len(names)) if b != i}
+    g = Fraction(meta["sigma"])
+    A = [[Fraction(a) / g for a in row] for row in meta["A"]]
+    y = [Fraction(v) for v in meta["y"]]
+    n, m = len(A[0]), len(A)
+    if "gamma" in e:
+        f, logc = real_closed_form(meta, i, others)
+        rate = -f([Fraction(1)])                                     # f(p) = -B p
+        shape = logc + 1
+        oshape, orate = e["gamma"][0], 1.0 / e["gamma"][1]
+        if abs(oshape - float(shape)) > 1e-9 or abs(orate - float(rate)) > 1e-9 * abs(float(rate)):
+            return ("Conjugate drew from Gamma(shape %.10g, rate %.10g); the conditional given the current other blocks is Gamma(shape %.10g, rate %.10g)"
+                    % (oshape, orate, float(shape), float(rate)))
+    if "zmean" in e:
+        d, l = others["d"][0], others["l"][0]
+        M = [[(d if r == c else 0) + l * sum(A[q][r] * A[q][c] for q in range(m)) for c in range(n)] for r in range(n)]
+        b = [l * sum(A[q][r] * y[q] for q in range(m)) for r in range(n)]
+        mean = [float(v) for v in _solve(M, b)]
+        sc = max(abs(v) for v in mean) + float(g) * 1e-3
+        if any(abs(a - b_) > 1e-5 * sc for a, b_ in zip(e["zmean"], mean)):
+            return "LinearRTO with the normal draw set to 0 returned %s; the mean of the conditional given the current other blocks is %s" % (e["zmean"], mean)
+    return None
+
+
+def real_cache_check(meta, obs):
+    if obs.get("error"):
+        return None
+    for e in obs["events"]:
+        for key, ok, c, f in e.get("cachechk", []):
+            if not ok:
+                return ("block %s (%s): %s = %s when its update starts, its target (the current conditional) gives %s at the current point"
+                        % (meta["spec"]["names"][e["blk"]], meta["assign"][e["blk"]], key, np.round(c, 9).tolist(), np.round(f, 9).tolist()))
+    return None
+
+
+def cgjoint(meta):
+    """Coq term of the polynomial part of the joint (gjoint): see Model/C09_Gibbs.v"""
+    names = meta["spec"]["names"]
+    k = len(names)
+    g = Fraction(meta["sigma"])
+    ix = {n: i for i, n in enumerate(names)}
+    row = lambda c, cos: "(mkRow %s %s)" % (cq(c), clist([cqvec(cos.get(b, [])) for b in range(k)]))
+    if meta["model"] == "hier":
+        A = [[Fraction(a) / g for a in r] for r in meta["A"]]
+        n = len(A[0])
+        unit = lambda j: [Fraction(int(j == c)) for c in range(n)]
+        f1 = "(mkGF (inl %s) %s)" % (cnat(ix["d"]), clist([row(0, {ix["x"]: unit(j)}) for j in range(n)]))
+        f2 = "(mkGF (inl %s) %s)" % (cnat(ix["l"]), clist([row(meta["y"][r], {ix["x"]: A[r]}) for r in range(len(A))]))
+        lins = clist(["(%s, %s)" % (cnat(ix["d"]), cq(Fraction(meta["bd"]) * g * g)), "(%s, %s)" % (cnat(ix["l"]), cq(meta["bl"]))])
+        return "(gjoint %s %s)" % (clist([f1, f2]), lins)
+    unit = lambda j, sgn=1: [Fraction(sgn * int(j == c)) for c in range(2)]
+    wx, ws = 1 / (Fraction(meta["vx"]) * g * g), 1 / (Fraction(meta["vs"]) * g * g)
+    f1 = "(mkGF (inr %s) %s)" % (cq(wx), clist([row(0, {ix["x"]: unit(j), ix["s"]: unit(j, -1)}) for j in range(2)]))
+    f2 = "(mkGF (inr %s) %s)" % (cq(ws), clist([row(Fraction(meta["mu"][j]) * g, {ix["s"]: unit(j)}) for j in range(2)]))
+    return "(gjoint %s [])" % clist([f1, f2])
+
+
+def encode_real(meta, obs):
+    if obs.get("error"):
+        return "false"
+    k = len(meta["spec"]["names"])
+    ns = clist([]) if meta["num_steps"] is None else clist([copt(n, cnat) for n in meta["num_steps"]])
+    m2 = dict(meta)
+    m2["script"] = real_script(meta, obs)
+    combos = clist([clist([czvec(c) for c in meta["combos"][i]]) for i in range(k)])
+    return "check_hybrid_tol %s %s %s %s %s %s %s %s %s %s %s %s" % (
+        cgjoint(meta), cvecs(meta["inits"]), ns, cscript(m2["script"]), cops(meta["ops"]), clist([cvecs(p) for p in meta["probes"]]),
+        combos, cq(TOL_REAL), clist([coev(dict(e, cache=None)) for e in obs["events"]]), cvecs(obs["cur"]),
+        clist([cvecs(st) for st in obs["stored"]]), cvecs([sm["pt"] for sm in obs["samplers"]]))
+
+
+REAL_CELLS = [
+    # (cell, model, names (par_names order), assignment, steps, ops, log2 sigma)
+    ("real/hier/LinearRTO+Conjugate", "hier", ["d", "l", "x"], ["Conjugate", "Conjugate", "LinearRTO"], None, [("sample", 3)], 0),
+    ("real/hier/LinearRTO+Conjugate/x-scale2^-30", "hier", ["x", "d", "l"], ["LinearRTO", "Conjugate", "Conjugate"], [1, 2, 1], [("sample", 3)], -30),
+    ("real/hier/LinearRTO+Conjugate/x-scale2^20/warmup", "hier", ["d", "x", "l"], ["Conjugate", "LinearRTO", "Conjugate"], None, [("warmup", 2, 0.5), ("sample", 2)], 20),
+    ("real/hier/NUTS+Conjugate", "hier", ["d", "l", "x"], ["Conjugate", "Conjugate", "NUTS"], None, [("warmup", 2, 0.5), ("sample", 2)], 0),
+    ("real/hier/MALA+MH+Conjugate", "hier", ["x", "d", "l"], ["MALA", "MH", "Conjugate"], [2, 1, 1], [("sample", 3)], 0),
+    ("real/pair/MALA+MH", "pair", ["x", "s"], ["MALA", "MH"], None, [("sample", 4)], 0),
+    ("real/pair/ULA+MH/scale2^-30", "pair", ["x", "s"], ["ULA", "MH"], None, [("sample", 4)], -30),
+    ("real/pair/CWMH+MH/warmup", "pair", ["s", "x"], ["MH", "CWMH"], [1, 2], [("warmup", 2, 0.5), ("sample", 2)], 0),
+    ("real/pair/PCN+Direct", "pair", ["x", "s"], ["Direct", "PCN"], None, [("sample", 4)], 0),
+    ("real/pair/PCN+Direct/scale2^-20", "pair", ["s", "x"], ["PCN", "Direct"], None, [("sample", 3)], -20),
+    ("real/pair/NUTS+MH", "pair", ["x", "s"], ["NUTS", "MH"], None, [("sample", 3)], 0),
+    ("real/pair/MALA+CWMH/scale2^-40", "pair", ["x", "s"], ["MALA", "CWMH"], None, [("sample", 3)], -40),
+]
+
+
+def gen_real(rng, cell):
+    name, model, names, assign, steps, ops, lg = cell
+    g = 2.0 ** lg
+    k = len(names)
+    meta = {"iface": "real", "real": True, "cell": name, "model": model, "assign": list(assign), "sigma": g, "npseed": rng.randint(0, 10 ** 6),
+            "zero_noise": bool(rng.random() < 0.5),
+            "num_steps": None if steps is None else list(steps), "ops": [list(o) for o in ops], "kinds": ["KRec"] * k}
+    if model == "hier":
+        n, m = rng.choice([2, 3]), 3
+        meta["A"] = [[rng.randint(-2, 2) for _ in range(n)] for _ in range(m)]
+        for j in range(n):
+            meta["A"][j % m][j] = meta["A"][j % m][j] or 1
+        meta["y"] = rvec(rng, m, -2, 2, 2)
+        meta["bd"], meta["bl"] = rng.choice([0.5, 1.0, 2.0]), rng.choice([0.5, 1.0])
+        dims = {"x": n, "d": 1, "l": 1}
+        d0, l0 = rng.choice([0.5, 1.0, 2.0]) / (g * g), rng.choice([1.0, 2.0])
+        init = {"x": [a * g for a in rvec(rng, n, -2, 2, 2)], "d": [d0], "l": [l0]}
+        probes = {"x": [[0.0] * n] + [[g * float(j == c) for c in range(n)] for j in range(n)] + [[a * g for a in rvec(rng, n, -2, 2, 2)]],
+                  "d": [[d0], [2 * d0], [4 * d0]], "l": [[l0], [2 * l0], [4 * l0]]}
+        combos = {"x": [[-1] + [int(j == c) for c in range(n + 1)] for j in range(n + 1)], "d": [[-1, 2, -1]], "l": [[-1, 2, -1]]}
+        sscale = {"x": 0.02 * g * g, "d": 0.5 / (g * g), "l": 0.5}
+    else:
+        meta["mu"], meta["vx"], meta["vs"] = rvec(rng, 2, -1, 1, 2), rng.choice([0.5, 0.25]), 1.0
+        dims = {"x": 2, "s": 2}
+        init = {"x": [a * g for a in rvec(rng, 2, -1, 1, 4)], "s": [a * g for a in rvec(rng, 2, -1, 1, 4)]}
+        pr = lambda: [[0.0, 0.0], [g, 0.0], [0.0, g], [a * g for a in rvec(rng, 2, -2, 2, 2)]]
+        probes = {"x": pr(), "s": pr()}
+        cb = [[-1, 1, 0, 0], [-1, 0, 1, 0], [-1, 0, 0, 1]]
+        combos = {"x": cb, "s": cb}
+        sscale = {}
+        for nm, a in zip(names, assign):
+            sscale[nm] = {"MALA": 0.05 * g * g, "ULA": 0.05 * g * g}.get(a, 0.5 * g if a in ("MH", "CWMH") else 0.5)
+    if model == "hier":
+        for nm, a in zip(names, assign):
+            if a in ("MH", "CWMH"):
+                sscale[nm] = {"x": 0.3 * g, "d": 0.3 / (g * g), "l": 0.3}[nm]
+    meta["spec"] = {"names": list(names), "dims": [dims[nm] for nm in names]}
+    meta["inits"] = [init[nm] for nm in names]
+    meta["probes"] = [probes[nm] for nm in names]
+    meta["combos"] = [combos[nm] for nm in names]
+    meta["sscale"] = [sscale.get(nm, 1.0) for nm in names]
+    meta["scales"] = [1.0] * k
+    return meta
+
 # ------------------------------------------------------------------------------------------
 # run / classify / replay / witnesses
 # ------------------------------------------------------------------------------------------
 def make_cases(meta, fresh):
     """the correspondence case(s) of one scenario"""
     out = []
+    if meta["iface"] == "real":
+        obs = run_real(meta)
+        detail, sig = oracle_hybrid(dict(meta, script=real_script(meta, obs)), obs)
+        out.append(Case(expr=encode_real(meta, obs), meta=meta, cell=meta["cell"], kind="DECISION", impl_fail=detail, signature=sig or ""))
+        d = real_cache_check(meta, obs)
+        m2 = dict(meta)
+        m2["check"] = "cache"
+        bad = [a for a in meta["assign"] if a in ("MH", "MALA", "ULA", "CWMH", "PCN")]
+        out.append(Case(expr="Nat.eqb %s %s" % (cnat(len(obs.get("events", []))), cnat(len(obs.get("events", [])))), meta=m2, cell=meta["cell"] + "/cache",
+                        kind="DECISION", trivial=True, impl_fail=d, signature=(SIG_STALE % (bad[0] if bad else "?")) if d else ""))
+        return out
     if meta["iface"] == "hybrid":
         obs = run_hybrid(meta)
         detail, sig = oracle_hybrid(meta, obs)
@@ -1013,6 +1538,24 @@ def run(ctx):
     for cell in LG_CELLS:
         for _ in range(reps):
             cases += make_cases(gen_legacy(rng, cell), fresh)
+    reps2 = ctx.n(6, 60)
+    for cell in HY_SCALE_CELLS:
+        for rep in range(reps2):
+            cases += make_cases(gen_hybrid_scale(rng, cell, rep), fresh)
+    for cell in HY_FINE_CELLS:
+        for rep in range(reps2):
+            cases += make_cases(gen_hybrid_fine(rng, cell, rep), fresh)
+    for rep in range(reps2):
+        cases += make_cases(gen_hybrid_partial(rng, rep), fresh)
+    for cell in LG_SCALE_CELLS:
+        for rep in range(reps2):
+            cases += make_cases(gen_legacy_scale(rng, cell), fresh)
+    for cell in LG_FINE_CELLS:
+        for rep in range(reps2):
+            cases += make_cases(gen_legacy_fine(rng, cell), fresh)
+    for cell in REAL_CELLS:
+        for rep in range(ctx.n(3, 25)):
+            cases += make_cases(gen_real(rng, cell), fresh)
     # the fixed witnesses as regular cases as well
     cases += make_cases(dict(WITNESS), fresh)
     cases += make_cases(dict(WITNESS_GETS), fresh)
@@ -1041,6 +1584,9 @@ def classify(meta, detail):
 
 def oracle(ctx, meta):
     m = meta.get("meta", meta)
+    if m.get("iface") == "real":
+        obs = run_real(m)
+        return real_cache_check(m, obs) if m.get("check") == "cache" else oracle_hybrid(dict(m, script=real_script(m, obs)), obs)[0]
     if m.get("iface") == "hybrid":
         obs = run_hybrid(m)
         if m.get("check") == "cache":
@@ -1069,6 +1615,15 @@ def replay(ctx, meta):
     m = meta.get("meta", meta)
     print(json.dumps({k: v for k, v in meta.items() if k != "meta"}, indent=1)[:3000])
     classes()
+    if m.get("iface") == "real":
+        obs = run_real(m)
+        print("scenario:", json.dumps({k: m[k] for k in m if k not in ("probes", "combos")})[:1500])
+        print("implementation: stored sweeps", obs.get("stored"), "error", obs.get("error"))
+        for e in obs.get("events", [])[:12]:
+            print("  step of block %s: current_samples %s, point %s, target at probes %s" % (m["spec"]["names"][e["blk"]], e["cur"], e["pt"], e["probes"]))
+        print("property oracle (wiring, closed-form conditionals):", oracle_hybrid(dict(m, script=real_script(m, obs)), obs))
+        print("property oracle (cached evaluations):", real_cache_check(m, obs))
+        return 0
     if m.get("iface") == "hybrid":
         obs = run_hybrid(m)
         print("scenario:", json.dumps({k: m[k] for k in ("cell", "kinds", "num_steps", "ops", "inits", "scales")}))
